@@ -27,11 +27,11 @@ import (
 // and the rule that needs the anchor then reports it as undecided.
 
 type symTable struct {
-	Funcs map[string]string   `json:"funcs"` // reviewed short name -> fingerprint
-	Types map[string]typeSym  `json:"types"` // reviewed "pkgrel.Name" -> shape
+	Funcs map[string]string  `json:"funcs"` // reviewed short name -> fingerprint
+	Types map[string]typeSym `json:"types"` // reviewed "pkgrel.Name" -> shape
 	// Place: reviewed short name -> signature and static callers; a function that was renamed
 	// *and* edited keeps its place in the call graph (second-chance match, see resolve)
-	Place map[string]string `json:"place,omitempty"`
+	Place map[string]string   `json:"place,omitempty"`
 	Note  string              `json:"note"`
 	Pkgs  map[string][]string `json:"-"`
 }
